@@ -8,7 +8,9 @@
 
   `Blocker::park/unpark` are not part of this layer's trace (C02): `unpark` is executed together with the
   `to_wake.take` that found the blocker, `park` returns silently right before the joiner's next event – and only
-  if the model's token is there.
+  if the model's token is there. A joiner coroutine that is cancelled while blocked in `wait` shows up as hooked
+  operations of its own kernel tail (the finishing code after the Cancel panic) while its API call is still open:
+  the model's joiner leaves by `Env.abort` (possible only at the park), the call is closed without a `ret`.
 -/
 import MayVerif.Core.Trace
 import MayVerif.Model.Runtime.Join
@@ -56,6 +58,7 @@ def jlabel (i : Nat) (sh : Sh) (pc : JPc) (e : Env) : Label :=
       { obj := "join.state", inst := oState i, op := "load", res := .num (b2i sh.state), ord := "Acquire" }
   | .wstore _ b, _ => { obj := "join.to_wake", inst := oWake i, op := "opt.store", a1 := blk i b }
   | .wpark _ _, _ => { kind := "silent", op := "-" }
+  | .unwound, _ => { kind := "none", op := "-" }
   | .wtake _ _, _ => { obj := "join.to_wake", inst := oWake i, op := "opt.take", res := optBlk i sh.toWake }
   | .ptake, _ => { obj := "coroutine_impl.packet", inst := oPacket i, op := "opt.take",
                    res := match sh.packet with | some v => .num v | none => .num (-1) }
@@ -68,7 +71,7 @@ def fName : FPc → String
 
 def jName : JPc → String
   | .idle _ => "idle" | .dload => "dload" | .wload1 _ => "wload1" | .wstore .. => "wstore" | .wload2 .. => "wload2"
-  | .wpark .. => "wpark" | .wtake .. => "wtake" | .ptake => "ptake" | .panictake => "panictake"
+  | .wpark .. => "wpark" | .wtake .. => "wtake" | .ptake => "ptake" | .panictake => "panictake" | .unwound => "unwound"
 
 def fTrans (sh : Sh) (pc : FPc) (e : Env) : String :=
   fName pc ++ match pc, e with
@@ -83,6 +86,7 @@ def jTrans (sh : Sh) (pc : JPc) (e : Env) : String :=
     | .wtake _ _, _ => if sh.toWake.isSome then "/some" else "/none"
     | .ptake, _ => if sh.packet.isSome then "/some" else "/none"
     | .panictake, _ => if sh.panic.isSome then "/some" else "/none"
+    | .wpark _ _, .abort => "/abort"
     | _, _ => ""
 
 /-- `unpark` is not visible at this layer: it is executed right after the `take` that found the blocker -/
@@ -163,6 +167,16 @@ def cands (r : RSt) (a : Nat) (ev : Event) : List (Label × RSt × String) :=
     | _ => []
   else match r.target a with
     | some i =>
+      if ev.kind == "a" && ev.actor.startsWith "k:" && a ≥ 16 then
+        -- the joiner was unwound by its own cancellation: only possible out of the park
+        match (r.get i).pcs a with
+        | .wpark _ _ => match step (r.get i) (.j a) .abort with
+          | some s1 =>
+            let r1 := { (r.set i s1) with cur := r.cur.filter (·.1 != a) }
+            (fcands (a - 16) (r1.get (a - 16)) ev).map fun (l, s', nm) => (l, r1.set (a - 16) s', "wpark/abort+" ++ nm)
+          | none => []
+        | _ => []
+      else
       (jcands i (r.get i) a ev).map fun (l, s', nm) =>
         (l, if ev.kind == "ret" then { (r.set i s') with cur := r.cur.filter (·.1 != a) } else r.set i s', nm)
     | none =>
